@@ -78,11 +78,13 @@ def replay(cex):
     """End-to-end: real CLI by path vs real CLI via stdin on the same real file."""
     d = desc_of(cex)
     feu = bool(cex.get("fix_even_unparsable"))
-    cp, changed_p, sql, _ = oc.cli_fix_on_disk(d, feu)
-    cs, changed_s, _ = oc.cli_fix_stdin(d, feu)
-    if (cp, changed_p) != (cs, changed_s):
-        return f"`sqlfluff fix` on {sql!r}: by path exit={cp} modified={changed_p}; via stdin exit={cs} modified={changed_s}"
-    return None
+    def once():
+        cp, changed_p, sql, _ = oc.cli_fix_on_disk(d, feu)
+        cs, changed_s, _ = oc.cli_fix_stdin(d, feu)
+        if (cp, changed_p) != (cs, changed_s):
+            return f"`sqlfluff fix` on {sql!r}: by path exit={cp} modified={changed_p}; via stdin exit={cs} modified={changed_s}"
+        return None
+    return oc.each_style(once)
 
 
 def known_f21(entry):
